@@ -10,6 +10,7 @@ mod c13;
 mod c17;
 mod c19;
 mod c19b;
+mod c20;
 mod common;
 mod desc;
 mod kat;
@@ -71,6 +72,7 @@ fn main() {
             0
         }
         "C19" => c19::run(tier),
+        "C20" => c20::run(tier),
         "C01" => c01::run(c01::Prop::C01, tier),
         "C02" => c01::run(c01::Prop::C02, tier),
         "C09" => c01::run(c01::Prop::C09, tier),
